@@ -268,12 +268,23 @@ def run_gen(ctx, case):
     calls_before = list(_log['calls'])
     judge_output(ctx, out, w['title'], w['box'], eligible, end_sizes, end_atoms, man, wit)
     _log['calls'][:] = []
-    # re-load the output with the library as well
+    # re-load the output with the library as well - unless two molecules that became neighbours in the output (the
+    # unmapped ones between them are gone) meet with the same (residue number, residue name): the file is then right by
+    # the statement (each molecule carries the numbers of its input molecule) but its residues cannot be told apart
+    ends = w['end_species']
+    ambiguous = any((a['resids'][-1] % 100000, ends[a['name']]['resnames'][-1]) == (b['resids'][0] % 100000, ends[b['name']]['resnames'][0])
+                    for a, b in zip(eligible, eligible[1:]))
+    if ambiguous:
+        ctx.count('reload_skipped_same_number_and_name_meet')
     try:
         from gaddlemaps.components import System
+        if ambiguous:
+            raise StopIteration
         s2 = System(out, *[w['files'][n]['top_end'] for n in w['end_for']])
         if len(s2) != len(eligible) or [m.name for m in s2] != [e['name'] for e in eligible]:
             ctx.violation('output-reloaded-differs', f'System(output) has {len(s2)} molecules, expected {len(eligible)} in input order', witness=wit)
+    except StopIteration:
+        pass
     except Exception as exc:  # noqa
         ctx.violation(f'output-not-loadable-with-end-topologies:{type(exc).__name__}', str(exc)[:200], witness=wit)
     # classes
